@@ -278,8 +278,7 @@ def phase2 (st : State) (ce : List ScimEntry) (su : Nat) : Except Err State :=
 /-- referential integrity after a delete: values naming a deleted uuid leave the reference
 attributes -/
 def stripAttrs (refAttrs D : List Nat) (m : List (Nat × List Nat)) : List (Nat × List Nat) :=
-  (m.map fun p => if refAttrs.contains p.1 then (p.1, p.2.filter fun v => !D.contains v) else p).filter
-    fun p => !p.2.isEmpty
+  m.map fun p => if refAttrs.contains p.1 then (p.1, p.2.filter fun v => !D.contains v) else p
 
 def Entry.strip (refAttrs D : List Nat) (e : Entry) : Entry :=
   { e with attrs := stripAttrs refAttrs D e.attrs }
@@ -488,26 +487,54 @@ def toEnt (e : Entry) : Ent :=
     syncParent := e.syncParent
     fe := fun a => if a == A.Class then cls.map Filter.Val.num else [] }
 
-/-- `apply_modlist`, one modification, on the tracked part of the entry. Structural attributes
-other than `class` are not applied (`none`): they are reachable for a user only after an
-administrator yielded the ownership marker itself. -/
-def applyUserMod (e : Entry) : Mod → Option Entry
-  | .present a v =>
-    if a == A.Class then some { e with classes := union e.classes [v] }
-    else if structuralAttrs.contains a then none
-    else some { e with attrs := addA a [v] e.attrs }
-  | .removed a v =>
-    if a == A.Class then some { e with classes := e.classes.filter (· != v) }
-    else if structuralAttrs.contains a then none
-    else some { e with attrs := remA a v e.attrs }
-  | .purged a =>
-    if structuralAttrs.contains a then none
-    else some { e with attrs := purgeA a e.attrs }
-  | .set a vs =>
-    if a == A.Class then some { e with classes := vs }
-    else if structuralAttrs.contains a then none
-    else some { e with attrs := setA a vs e.attrs }
-  | .assert _ _ => some e
+/-- `apply_modlist` on a single-valued structural field (`none` = the result would hold two values,
+which the entry cannot represent and the schema refuses). -/
+def applyField (cur : Option Nat) : Mod → Option (Option Nat)
+  | .present _ v => if cur == none || cur == some v then some (some v) else none
+  | .removed _ v => some (if cur == some v then none else cur)
+  | .purged _ => some none
+  | .set _ vs =>
+    match vs with
+    | [] => some none
+    | [v] => some (some v)
+    | _ => none
+  | .assert _ _ => some cur
+
+/-- attributes of `structuralAttrs` that `applyUserMod` does not apply at all -/
+def frozenAttrs : List Nat := [A.Uuid, A.SyncCookie, A.SyncYieldAuthority]
+
+/-- `apply_modlist`, one modification, on the tracked part of the entry. `uuid` (refused by the
+Base plugin, C20), `sync_cookie` and `sync_yield_authority` are not applied (`none`). -/
+def applyUserMod (e : Entry) (m : Mod) : Option Entry :=
+  let a := match m with
+    | .present a _ | .removed a _ | .purged a | .set a _ | .assert a _ => a
+  if frozenAttrs.contains a then
+    (match m with | .assert _ _ => some e | _ => none)
+  else if a == A.SyncParentUuid then
+    (applyField e.syncParent m).map fun p => { e with syncParent := p }
+  else if a == A.SyncExternalId then
+    (applyField e.extId m).map fun x => { e with extId := x }
+  else if a == A.Class then
+    match m with
+    | .present _ v => some { e with classes := union e.classes [v] }
+    | .removed _ v => some { e with classes := e.classes.filter (· != v) }
+    | .purged _ => some { e with classes := [] }
+    | .set _ vs => some { e with classes := vs }
+    | .assert _ _ => some e
+  else if a == A.SyncClass then
+    match m with
+    | .present _ v => some { e with syncClasses := union e.syncClasses [v] }
+    | .removed _ v => some { e with syncClasses := e.syncClasses.filter (· != v) }
+    | .purged _ => some { e with syncClasses := [] }
+    | .set _ vs => some { e with syncClasses := vs }
+    | .assert _ _ => some e
+  else
+    match m with
+    | .present _ v => some { e with attrs := addA a [v] e.attrs }
+    | .removed _ v => some { e with attrs := remA a v e.attrs }
+    | .purged _ => some { e with attrs := purgeA a e.attrs }
+    | .set _ vs => some { e with attrs := setA a vs e.attrs }
+    | .assert _ _ => some e
 
 def applyUserMods : Entry → List Mod → Option Entry
   | e, [] => some e
